@@ -411,6 +411,27 @@ fn judge_mesh(v: &[Point3], f: &[[u32; 3]], is_solid: bool, queries: &[Point3], 
         let got = m.indices_in_tol(&pts, 1.0, 0.5, None);
         l.check("indices_in_tol equals the per-point filter", "", got == want, mk, || format!("{:?} vs {:?}", got, want));
     }
+    // the whole query list at once, repeated to more than a thousand points (lists longer than any internal block),
+    // with and without a transform
+    {
+        l.eval();
+        let mut long: Vec<Point3> = Vec::new();
+        while long.len() < 1100 {
+            long.extend(queries.iter().cloned());
+        }
+        let iso = engeom::Iso3::new(Vector3::new(0.4, -1.1, 0.2), Vector3::new(0.2, 0.1, -0.3));
+        let back = iso.inverse();
+        let moved: Vec<Point3> = long.iter().map(|p| back * p).collect();
+        let want: Vec<usize> = (0..long.len()).filter(|i| m.project_with_tol(&long[*i], 1.0, 0.5, None).is_some()).collect();
+        let got = m.indices_in_tol(&long, 1.0, 0.5, None);
+        let got_t = m.indices_in_tol(&moved, 1.0, 0.5, Some(&iso));
+        let want_t: Vec<usize> = (0..moved.len()).filter(|i| m.project_with_tol(&moved[*i], 1.0, 0.5, Some(&iso)).is_some()).collect();
+        l.bucket("index filter over a list of more than a thousand points");
+        l.check("indices_in_tol equals the per-point filter", "long list", got == want && got_t == want_t, mk, || {
+            let first = got.iter().zip(want.iter()).position(|(a, b)| a != b);
+            format!("{} points: {} indices against {} expected (first difference at position {:?}); through a transform {} against {}", long.len(), got.len(), want.len(), first, got_t.len(), want_t.len())
+        });
+    }
 }
 
 pub fn judge(case: &Case, l: &mut Local) {
@@ -755,7 +776,7 @@ pub fn run(tier: Tier) -> i32 {
     let mut cx = Ctx::new("C02", tier, "exploration");
     cx.rule = "every 2D lattice curve with <= 4 vertices (open/force-closed) x the half-integer query grid; 3D lattice curves x a 7^3 grid; 7 structured large polyline families x 15 sizes (5..5000 edges: every QBVH occupancy and depth) x grid + on-entity queries; all 512 height fields over a 3x3 grid x 2 diagonal patterns and 4 solids (non-solid with inside queries, flagged solid with outside queries) x query grid x 4 caps x 3 angle limits; many-element meshes incl. a box with a cavity (nested surfaces) and two sheets a micron apart; every 32nd (thorough: 8th) height field also in microns and tens of kilometres (distances, caps and angle limits must scale); reference model: brute force over every edge / face. distinct = distinct entities".into();
     cx.bounds = json!({"curve2_seq_len": tier.pick(4, 5), "curve3_seq_len": 3, "query_grid_step": tier.pick(0.5, 0.25), "large_sizes": gen::LARGE_SIZES, "caps": [0.25, 1.0, 1.4142135623730951, 10.0], "angles": [0.2, 0.7853981633974483, 1.5]});
-    cx.require(&["many-element mesh", "query within 1e-3 of the surface", "query on the entity", "query equidistant from several elements", "query with a unique nearest element", "structured large polyline", "non-solid mesh with inside queries", "mesh flagged solid, outside queries", "mesh queried before being moved into place", "curve with a coarse tolerance, queries projecting next to vertices", "closed polygon queried outside its vertices", "curve at another length unit", "mesh queried at another length unit"]);
+    cx.require(&["many-element mesh", "query within 1e-3 of the surface", "query on the entity", "query equidistant from several elements", "query with a unique nearest element", "structured large polyline", "non-solid mesh with inside queries", "mesh flagged solid, outside queries", "mesh queried before being moved into place", "curve with a coarse tolerance, queries projecting next to vertices", "closed polygon queried outside its vertices", "curve at another length unit", "mesh queried at another length unit", "index filter over a list of more than a thousand points"]);
     cx.assume("ties: any minimiser accepted; gray: distance within 1e-9 of the cap, zero offset (angle undefined), angle within 1e-9 of the acceptance boundary");
     cx.assume("inside queries are made on non-solid meshes only, as the quantifier says (is_solid has no effect on Mesh::new meshes)");
     let cs = cases(tier);
